@@ -237,6 +237,17 @@ def oracle_one(ctx, src, r):
     if spec is None or build(spec) != src:
         ok = r["status"] in ("0", "103")
         return ok, "" if ok else f"exit status {r['status']}"
+    if spec["k"] == "spelled":
+        # the law relates three scripts: what `a == b` and `b == a` answer decides what the other spelling must answer
+        fwd = dict(spec, k="eq")
+        bwd = dict(spec, k="eq", a=spec["b"], ra=spec["rb"], b=spec["a"], rb=spec["ra"])
+        o, p_ = outcome(core.run_cli(build(fwd)), 0, 1), outcome(core.run_cli(build(bwd)), 0, 1)
+        text, want_fn = SPELLINGS[spec["sp"]]
+        got = outcome(r, 0)
+        want = want_fn(o, p_) if want_fn else (got if got[0] == "E" else ("T",))
+        if got != want:
+            return False, f"`a == b` is {o}, `b == a` is {p_}, so `{text}` must be {want}, but it is {got}"
+        return True, ""
     return judge(spec, r)
 
 
